@@ -25,7 +25,7 @@ func RAsciiFold(c *core.Ctx) {
 	p := c.P
 	asciiOnly := map[string]bool{"IndexStringIgnoreCaseASCII": true, "IndexOfIgnoreCaseAscii": true, "EqualStringIgnoreCaseASCII": true}
 	isTest := func(fn *ssa.Function) bool {
-		return fn != nil && (fn.Name() == "isASCIIString" || fn.Name() == "isASCIIRunes")
+		return fn != nil && (core.BaseName(fn) == "isASCIIString" || core.BaseName(fn) == "isASCIIRunes")
 	}
 	funcs := p.ModuleFuncs()
 	hasTest := map[*ssa.Function]bool{}
@@ -188,6 +188,40 @@ func RCiRef(c *core.Ctx) {
 }
 
 // ---------------------------------------------------------------------------
+// storesRangeElem: fn overwrites an element of some CharSet's ranges in place.
+func storesRangeElem(fn *ssa.Function, rng *types.Var) bool {
+	for _, b := range fn.Blocks {
+		for _, ins := range b.Instrs {
+			st, ok := ins.(*ssa.Store)
+			if !ok {
+				continue
+			}
+			addr := st.Addr
+			if fa, ok := addr.(*ssa.FieldAddr); ok {
+				addr = fa.X
+			}
+			if ia, ok := addr.(*ssa.IndexAddr); ok {
+				if ld, ok := ia.X.(*ssa.UnOp); ok && core.FieldVarOfAddr(ld.X) == rng {
+					return true
+				}
+			}
+		}
+	}
+	return false
+}
+
+// touchesField: fn reads or writes field f of anything.
+func touchesField(fn *ssa.Function, f *types.Var) bool {
+	for _, b := range fn.Blocks {
+		for _, ins := range b.Instrs {
+			if fa, ok := ins.(*ssa.FieldAddr); ok && core.FieldVarOfAddr(fa) == f {
+				return true
+			}
+		}
+	}
+	return false
+}
+
 // R-ADDMONO: "add…" methods of CharSet only add.
 // A method that makes a class case-insensitive has to keep every member the
 // class already has (a character always matches itself) and may only add the
@@ -216,14 +250,26 @@ func RAddMono(c *core.Ctx) {
 		}
 		name := core.SSAName(fn)
 		// canonicalize-like: writes negate (it re-normalises the representation as a whole)
-		renorm := false
-		for _, b := range fn.Blocks {
-			for _, ins := range b.Instrs {
-				if st, ok := ins.(*ssa.Store); ok && core.FieldVarOfAddr(st.Addr) == neg {
-					renorm = true
+		// (directly, or in a method it calls on its own receiver that does not touch ranges at all:
+		// a flag update factored out into a helper — calling canonicalize does not make the caller one)
+		var storesNeg func(f *ssa.Function, depth int) bool
+		storesNeg = func(f *ssa.Function, depth int) bool {
+			for _, b := range f.Blocks {
+				for _, ins := range b.Instrs {
+					if st, ok := ins.(*ssa.Store); ok && core.FieldVarOfAddr(st.Addr) == neg {
+						return true
+					}
+					if call, ok := ins.(*ssa.Call); ok && depth > 0 && len(f.Params) > 0 {
+						if cal := call.Call.StaticCallee(); cal != nil && core.InModule(cal) && cal.Signature.Recv() != nil &&
+							len(call.Call.Args) > 0 && call.Call.Args[0] == ssa.Value(f.Params[0]) && !touchesField(cal, rng) && storesNeg(cal, depth-1) {
+							return true
+						}
+					}
 				}
 			}
+			return false
 		}
+		renorm := storesNeg(fn, 2)
 		cnt := 0
 		for _, b := range fn.Blocks {
 			for _, ins := range b.Instrs {
@@ -553,7 +599,7 @@ func ROr20(c *core.Ctx) {
 				for _, cj := range conjuncts(top) {
 					ast.Inspect(cj, func(y ast.Node) bool {
 						if call, ok := y.(*ast.CallExpr); ok && len(call.Args) == 1 {
-							if cal := core.Callee(info, call); cal != nil && cal.Pkg() != nil && cal.Pkg().Path() == "unicode" && (cal.Name() == "IsLetter" || cal.Name() == "IsLower" || cal.Name() == "IsUpper") {
+							if cal := core.Callee(info, call); cal != nil && cal.Pkg() != nil && cal.Pkg().Path() == "unicode" && (core.BaseName(cal) == "IsLetter" || core.BaseName(cal) == "IsLower" || core.BaseName(cal) == "IsUpper") {
 								letter[types.ExprString(ast.Unparen(call.Args[0]))] = true
 							}
 						}
